@@ -34,7 +34,8 @@ def canon(arr):
     h = arr["evt_header"]
     if list(h.fields) != HDR_KEYS:
         problems.append("evt_header fields %s" % list(h.fields))
-    cols = [ak.to_numpy(h[k]).astype(np.int64).tolist() for k in h.fields]
+    keys = HDR_KEYS if set(HDR_KEYS) <= set(h.fields) else list(h.fields)     # values are taken BY NAME
+    cols = [ak.to_numpy(h[k]).astype(np.int64).tolist() for k in keys]
     hdr = [list(r) for r in zip(*cols)] if cols else []
     dets = []
     for name in fields[1:]:
